@@ -35,6 +35,14 @@ CONSTS = [
     ("DEFAULT_MAX_PROVIDER_KEYS", KAD + "config.rs", const("DEFAULT_MAX_PROVIDER_KEYS")),
     ("DEFAULT_MAX_PROVIDER_ADDRESSES", KAD + "config.rs", const("DEFAULT_MAX_PROVIDER_ADDRESSES")),
     ("DEFAULT_MAX_PROVIDERS_PER_KEY", KAD + "config.rs", const("DEFAULT_MAX_PROVIDERS_PER_KEY")),
+    # C17 (callers of the store, refresh machinery): durations in seconds
+    ("KAD_MAX_ADDRESSES", KAD + "types.rs", const("MAX_ADDRESSES")),
+    ("DEFAULT_PROVIDER_TTL_SECS", KAD + "config.rs",
+     r"const\s+DEFAULT_PROVIDER_TTL\s*:\s*Duration\s*=\s*Duration::from_secs\(([^)]+)\)"),
+    ("DEFAULT_PROVIDER_REFRESH_INTERVAL_SECS", KAD + "config.rs",
+     r"const\s+DEFAULT_PROVIDER_REFRESH_INTERVAL\s*:\s*Duration\s*=\s*Duration::from_secs\(([^)]+)\)"),
+    ("DEFAULT_RECORD_TTL_SECS", KAD + "config.rs",
+     r"const\s+DEFAULT_TTL\s*:\s*Duration\s*=\s*Duration::from_secs\(([^)]+)\)"),
     # C15
     ("REPLICATION_FACTOR", KAD + "config.rs", const("REPLICATION_FACTOR")),
     ("PARALLELISM_FACTOR", KAD + "mod.rs", const("PARALLELISM_FACTOR")),
@@ -46,6 +54,15 @@ CONSTS = [
     ("MAX_FRAME_LEN", NOISE, const("MAX_FRAME_LEN")),
     ("MAX_READ_AHEAD_FACTOR", NOISE, const("MAX_READ_AHEAD_FACTOR")),
     ("MAX_WRITE_BUFFER_SIZE", NOISE, const("MAX_WRITE_BUFFER_SIZE")),
+    # C02: the defaults of the pub config fields that size the NoiseSocket buffers (Default impls)
+    ("TCP_NOISE_READ_AHEAD_DEFAULT", "src/transport/tcp/config.rs",
+     r"noise_read_ahead_frame_count:\s*([A-Z][A-Z_0-9]*|\d[\d_]*)\s*,"),
+    ("TCP_NOISE_WRITE_BUFFER_DEFAULT", "src/transport/tcp/config.rs",
+     r"noise_write_buffer_size:\s*([A-Z][A-Z_0-9]*|\d[\d_]*)\s*,"),
+    ("WS_NOISE_READ_AHEAD_DEFAULT", "src/transport/websocket/config.rs",
+     r"noise_read_ahead_frame_count:\s*([A-Z][A-Z_0-9]*|\d[\d_]*)\s*,"),
+    ("WS_NOISE_WRITE_BUFFER_DEFAULT", "src/transport/websocket/config.rs",
+     r"noise_write_buffer_size:\s*([A-Z][A-Z_0-9]*|\d[\d_]*)\s*,"),
     # C03
     ("C03_MAX_LEN_BYTES", "src/multistream_select/length_delimited.rs", const("MAX_LEN_BYTES")),
     ("C03_MAX_PROTOCOLS", "src/multistream_select/protocol.rs", const("MAX_PROTOCOLS")),
@@ -167,10 +184,24 @@ def main():
     counts, miss = gen_c19_sites.generate(REPO)
     vals.update(counts)      # C19_DECODE_SITES, C19_CODEC_SITES
     missing += list(miss)
+    # C17: shape of the MemoryStore, its configuration and its callers -> coq/gen/C17Tables.v (sibling script)
+    import gen_c17_tables
+    counts, miss = gen_c17_tables.generate(REPO)
+    vals.update(counts)      # C17_STORE_CALL_SITES
     # C10: the DialError variants and the arms of AddressStore::error_score -> coq/gen/DialErrors.v
     import gen_c10_errors
     counts, miss = gen_c10_errors.generate(REPO)
     vals.update(counts)      # C10_DIAL_ERROR_LEAVES, C10_ERROR_SCORE_ARMS
+    # C02: the io::ErrorKind table of the harness and the kinds the NoiseSocket produces itself
+    # -> coq/gen/NoiseKinds.v (sibling script)
+    import gen_c02_kinds
+    counts, miss = gen_c02_kinds.generate(REPO)
+    vals.update(counts)      # NOISE_KIND_TABLE_SIZE
+    missing += list(miss)
+    # C15: the dispatch tables of the Kademlia QueryEngine -> coq/gen/KadDispatch.v (sibling script)
+    import gen_c15_dispatch
+    counts, miss = gen_c15_dispatch.generate(REPO)
+    vals.update(counts)      # C15_QUERY_TYPES, C15_MESSAGE_KINDS, C15_QUERY_ACTIONS
     missing += list(miss)
     str_names = []
     for name, path, rx in STR_CONSTS:
